@@ -825,11 +825,11 @@ class EveryCasedLetter(Part):
 
 class ReservedValuesOfEveryShape(Part):
     name = "reserved_secret_values_of_every_format_class"
-    desc = ("every built-in reserved word that reads as a number or as hexadecimal (all of them, found by scanning the list), "
-            "and user additions shaped like a number, hex, a type-7 string and a hash, as the secret value of every "
-            "one-slot form: left as is")
+    desc = ("every built-in reserved word without a blank in it (all ~5000: numbers, hexadecimal, words with quotes, braces, "
+            "'$' ...), and user additions shaped like a number, hex, a type-7 string and a hash, as the secret value of "
+            "every one-slot form: the value's token is left as is")
 
-    USER = ["cafe", "2024", "0822455D0A16", "AB12", "$1$abcd$Xy7"]
+    USER = ["cafe", "2024", "0822455D0A16", "AB12", "$1$abcd$Xy7", '"${site}"', "{x}"]
 
     def __init__(self, tier, seed):
         self.tier, self.seed = tier, seed
@@ -838,37 +838,55 @@ class ReservedValuesOfEveryShape(Part):
         forms = [f for f in secdom.catalogue() if not f["scrub"] and f["slots"] == 1 and "{S}" in f["template"]]
         return [{"form": f["id"]} for f in forms[:: (2 if self.tier == "quick" else 1)]]
 
-    def run(self, case):
+    def _judge(self, res, f, vals, user, case):
         from netconan.anonymize_files import FileAnonymizer
 
+        marked = secdom.fill(f["template"], ["\x00"]).split()
+        idx = [i for i, t in enumerate(marked) if "\x00" in t][0]
+        lines = [secdom.fill(f["template"], [v]) for v in vals]
+        try:
+            with seams.capture_logs():
+                fa = FileAnonymizer(anon_pwd=True, anon_ip=False, salt="saltForTest", reserved_words=list(user) if user else None)
+                out = io.StringIO()
+                fa.anonymize_io(io.StringIO("password someOtherSecret\n" + "".join(l + "\n" for l in lines)), out)
+        finally:
+            seams.restore_globals()
+        got = out.getvalue().split("\n")[1:-1]
+        if len(got) != len(lines):
+            res.violation("line-count|reserved-values", "%d lines in, %d out" % (len(lines), len(got)), case)
+            return
+        for val, line, g in zip(vals, lines, got):
+            res.evals += 1
+            res.nt((f["id"], val))
+            it, ot = line.split(), g.split()
+            kept = (ot[idx] == it[idx]) if len(it) == len(ot) and idx < len(it) else (val in g)
+            res.out(kept)
+            if not kept:
+                # values with punctuation: the skeleton of the value (runs of letters and digits -> w) names the situation
+                shape = ("digits" if val.isdigit() else "hex" if re.fullmatch(r"[0-9a-fA-F]+", val) else "word" if val.isalnum()
+                         else "shape=" + re.sub(r"[A-Za-z0-9]+", "w", val))
+                res.violation("reserved-secret-value-changed|%s|%s" % ("user-addition" if user else "built-in", shape),
+                              "form %s: %r -> %r" % (f["id"], line, g), dict(case, val=val))
+
+    def run(self, case):
         res = Res()
         f = [x for x in secdom.catalogue() if x["id"] == case["form"]][0]
-        shaped = sorted(w for w in builtin_reserved() if re.fullmatch(r"[0-9a-fA-F]+", w))
-        res.states = len(shaped) + len(self.USER)
-        vals = [(w, None) for w in shaped] + [(w, w) for w in self.USER]
+        builtin = sorted(w for w in builtin_reserved() if w and not re.search(r"\s", w))
+        if '"{S}"' in f["template"]:
+            builtin = [w for w in builtin if '"' not in w]   # the form brings its own quotes
+        res.states = len(builtin) + len(self.USER)
         if "val" in case:
-            vals = [v for v in vals if v[0] == case["val"]]
-        for val, user in vals:
-            if '"{S}"' not in f["template"] and val.startswith("$") and "[^" in f["regex"]:
-                pass
-            line = secdom.fill(f["template"], [val])
-            res.evals += 1
-            try:
-                with seams.capture_logs():
-                    fa = FileAnonymizer(anon_pwd=True, anon_ip=False, salt="saltForTest", reserved_words=[user] if user else None)
-                    out = io.StringIO()
-                    fa.anonymize_io(io.StringIO("password someOtherSecret\n" + line + "\n"), out)
-            finally:
-                seams.restore_globals()
-            g = out.getvalue().rstrip("\n").split("\n")[-1]
-            res.nt((f["id"], val))
-            res.out(g == line)
-            if val not in g.replace('"', " ").replace(";", " ").split():
-                res.violation("reserved-secret-value-changed|%s|%s" % ("user-addition" if user else "built-in",
-                                                                      "digits" if val.isdigit() else "hex-or-other"),
-                              "form %s: %r -> %r" % (f["id"], line, g), dict(case, val=val))
-        if "val" not in case:
-            res.samples.append({"form": f["template"], "built_in_values": len(shaped), "examples": shaped[:6]})
+            if case["val"] in self.USER:
+                self._judge(res, f, [case["val"]], [case["val"]], case)
+            else:
+                self._judge(res, f, [case["val"]], None, case)
+            return res
+        self._judge(res, f, builtin, None, case)
+        for u in self.USER:
+            if '"{S}"' in f["template"] and '"' in u:
+                continue
+            self._judge(res, f, [u], [u], case)
+        res.samples.append({"form": f["template"], "built_in_values": len(builtin), "examples": builtin[:6]})
         return res
 
 
